@@ -152,10 +152,15 @@ func descObs(obs []tobs) interface{} {
 }
 
 func mainCase(w *wire.Writer, rng *rand.Rand, in *annot.Input, ntimes int, class string) (*wire.Case, *annot.Outcome, []tobs) {
+	return stepCase(w, rng, in, in.Run(), ntimes, class, nil)
+}
+
+// stepCase: [in] is the input the Coq model receives, [o] what the implementation returned for it
+// (possibly as the last call of a sequence described in extra).
+func stepCase(w *wire.Writer, rng *rand.Rand, in *annot.Input, o *annot.Outcome, ntimes int, class string, extra map[string]interface{}) (*wire.Case, *annot.Outcome, []tobs) {
 	c := &wire.Case{Class: class}
 	c.Int(1)
 	in.Encode(c)
-	o := in.Run()
 	o.Encode(c)
 	var obs []tobs
 	if o.Status == 0 {
@@ -169,7 +174,11 @@ func mainCase(w *wire.Writer, rng *rand.Rand, in *annot.Input, ntimes int, class
 		}
 	}
 	encObs(c, obs)
-	c.Desc = map[string]interface{}{"input": in.Desc(), "outcome": o.Desc(), "apply_updates_up_to": descObs(obs)}
+	desc := map[string]interface{}{"input": in.Desc(), "outcome": o.Desc(), "apply_updates_up_to": descObs(obs)}
+	for k, v := range extra {
+		desc[k] = v
+	}
+	c.Desc = desc
 	w.Count(fmt.Sprintf("status:%d", o.Status))
 	w.Count("regime:" + in.Regime)
 	thr := "random<2h"
@@ -242,8 +251,12 @@ func boundaryHistory(rng *rand.Rand) *annot.Input {
 		base = osm.CommitInfoStart.Add(50 * 24 * time.Hour)
 		in.Regime = "commit"
 	}
+	populated := !commit && rng.Intn(2) == 0 // old data whose committed attribute is set (= timestamp)
+	if populated {
+		in.Regime = "oldcommit"
+	}
 	mk := func(t time.Time) (time.Time, *time.Time) {
-		if commit {
+		if commit || populated {
 			c := t
 			return t, &c
 		}
@@ -263,21 +276,32 @@ func boundaryHistory(rng *rand.Rand) *annot.Input {
 		ts, com := mk(base)
 		h.Versions = append(h.Versions, annot.Hver{Version: 1, Changeset: 1, Timestamp: ts, Committed: com, Lat: 1, Lon: float64(i), Visible: true})
 		// candidate stamps on the boundaries, increasing
-		var cand []time.Time
-		for _, p := range pt {
+		type candT struct {
+			t   time.Time
+			fwd int64 // changeset of the parent this stamp follows within the window, 0 = none
+		}
+		var cand []candT
+		for pi, p := range pt {
 			for _, d := range []time.Duration{-in.Threshold - 1, -in.Threshold, -in.Threshold + 1, -1, 0, 1, in.Threshold - 1, in.Threshold, in.Threshold + 1} {
-				cand = append(cand, p.Add(d))
+				c := candT{t: p.Add(d)}
+				if d > 0 {
+					c.fwd = int64(500 + pi)
+				}
+				cand = append(cand, c)
 			}
 		}
-		sort.Slice(cand, func(a, b int) bool { return cand[a].Before(cand[b]) })
+		sort.Slice(cand, func(a, b int) bool { return cand[a].t.Before(cand[b].t) })
 		v := 2
-		for _, t := range cand {
+		for _, cd := range cand {
+			t := cd.t
 			if rng.Intn(4) != 0 || !t.After(base) {
 				continue
 			}
 			ts, com := mk(t)
 			cs := int64(10 + v)
-			if rng.Intn(3) == 0 {
+			if cd.fwd != 0 && rng.Intn(2) == 0 {
+				cs = cd.fwd // same-changeset forward grouping candidate
+			} else if rng.Intn(3) == 0 {
 				cs = int64(500 + rng.Intn(np)) // a parent's changeset
 			}
 			h.Versions = append(h.Versions, annot.Hver{Version: v, Changeset: cs, Timestamp: ts, Committed: com, Lat: float64(v), Lon: float64(i), Visible: true})
@@ -299,12 +323,52 @@ func boundaryHistory(rng *rand.Rand) *annot.Input {
 	return in
 }
 
+// errorFamily: the typed-error clause for every combination of the two ignore options and every
+// kind of unusable child history: never listed, not found, empty, all versions deleted, deleted at
+// the parent's time (undeleted later).  The way also references one healthy node.
+func errorFamily() []*annot.Input {
+	var out []*annot.Input
+	t0 := osm.CommitInfoStart.Add(200 * 24 * time.Hour)
+	at := func(h int) (time.Time, *time.Time) { t := t0.Add(time.Duration(h) * time.Hour); c := t; return t, &c }
+	good, bad := osm.NodeID(1).FeatureID(), osm.NodeID(2).FeatureID()
+	for combo := 0; combo < 4; combo++ {
+		for kind := 0; kind < 5; kind++ {
+			in := &annot.Input{Threshold: 30 * time.Minute, Regime: "commit", IgnoreIncons: combo&1 != 0, IgnoreMissing: combo&2 != 0}
+			ts, com := at(10)
+			in.Parents = []annot.Parent{{Changeset: 1, Visible: true, Timestamp: ts, Committed: com, Refs: []annot.Ref{{FID: good}, {FID: bad}}}}
+			g1, gc1 := at(1)
+			g2, gc2 := at(20)
+			in.Hists = []annot.Hist{{FID: good, Versions: []annot.Hver{{Version: 1, Changeset: 2, Timestamp: g1, Committed: gc1, Lat: 1, Lon: 1, Visible: true},
+				{Version: 2, Changeset: 3, Timestamp: g2, Committed: gc2, Lat: 2, Lon: 2, Visible: true}}}}
+			b1, bc1 := at(2)
+			b2, bc2 := at(5)
+			b3, bc3 := at(30)
+			switch kind {
+			case 0: // never listed
+			case 1:
+				in.Hists = append(in.Hists, annot.Hist{FID: bad, Kind: 1})
+			case 2:
+				in.Hists = append(in.Hists, annot.Hist{FID: bad, Kind: 0})
+			case 3: // redacted: a single deleted version
+				in.Hists = append(in.Hists, annot.Hist{FID: bad, Versions: []annot.Hver{{Version: 1, Changeset: 4, Timestamp: b1, Committed: bc1, Visible: false}}})
+			case 4: // deleted when the way was written, undeleted later
+				in.Hists = append(in.Hists, annot.Hist{FID: bad, Versions: []annot.Hver{
+					{Version: 1, Changeset: 4, Timestamp: b1, Committed: bc1, Lat: 3, Lon: 3, Visible: true},
+					{Version: 2, Changeset: 5, Timestamp: b2, Committed: bc2, Visible: false},
+					{Version: 3, Changeset: 6, Timestamp: b3, Committed: bc3, Lat: 4, Lon: 4, Visible: true}}})
+			}
+			out = append(out, in)
+		}
+	}
+	return out
+}
+
 func main() {
 	a := wire.ParseArgs()
 	rng := wire.Rng(a.Seed)
 	w := wire.NewWriter("C11", a.Seed, a.Tier)
-	w.Rule = "edit histories: 1-5 parent versions, 1-6 children (repeats, entering, leaving), up to 8 versions per child placed before/between/after/in the same second as parent versions, deletions and undeletions, regimes commit / old / nocommit / mixed, thresholds 0,1s,30min,10000h,random, plus a boundary family (child versions stamped exactly at a parent's stamp, at the next parent's stamp minus the threshold, +-1ns, +-threshold), child filters with pre-annotated references, ignore options, missing or failing histories; half of the histories are consistent (success expected). For every visible parent of a successful annotation ApplyUpdatesUpTo(t) is observed at up to 8 (quick) / 16 (thorough) times drawn from all event times, +-1ns, +-threshold (window times first). Non-trivial = error outcome or at least one update; distinct = distinct token streams."
-	n, ntimes := 220, 8
+	w.Rule = "edit histories: 1-5 parent versions, 1-6 children (repeats, entering, leaving), up to 8 versions per child placed before/between/after/in the same second as parent versions, deletions and undeletions, regimes commit / old / nocommit / mixed, thresholds 0,1s,30min,10000h,random; families: errors (4 ignore-option combinations x {never listed, not found, empty, all deleted, deleted at the parent's time}), slow_datasource (context-honouring lookups with one ignorable missing child), late_parent (first k parent versions annotated alone, then all together with the first k already annotated), old data with a populated committed attribute, location-only references under a filter, versions dated in the year 2100; plus a boundary family (child versions stamped exactly at a parent's stamp, at the next parent's stamp minus the threshold, +-1ns, +-threshold), child filters with pre-annotated references, ignore options, missing or failing histories; half of the histories are consistent (success expected). For every visible parent of a successful annotation ApplyUpdatesUpTo(t) is observed at up to 8 (quick) / 16 (thorough) times drawn from all event times, +-1ns, +-threshold (window times first). Non-trivial = error outcome or at least one update; distinct = distinct token streams."
+	n, ntimes := 200, 8
 	if a.Tier == "thorough" {
 		n, ntimes = 6000, 16
 	}
@@ -320,6 +384,42 @@ func main() {
 			Hists:   []annot.Hist{{FID: osm.NodeID(5).FeatureID(), Kind: 0}}}
 		c, _, _ := mainCase(w, rng, in, ntimes, "corpus")
 		w.Add(c)
+	}
+	for _, in := range errorFamily() {
+		c, _, _ := mainCase(w, rng, in, ntimes, "errors")
+		w.Add(c)
+	}
+	// a slow datasource that honours its context, with one missing child that is to be ignored
+	for k := 0; k < 3; k++ {
+		in := errorFamily()[10+k] // ignore_missing set, inconsistency not ignored
+		in.IgnoreIncons = true
+		in.Slow = true
+		for j := 0; j < 4; j++ {
+			fid := osm.NodeID(10 + j).FeatureID()
+			in.Parents[0].Refs = append(in.Parents[0].Refs, annot.Ref{FID: fid})
+			h := in.Hists[0]
+			h.FID = fid
+			in.Hists = append(in.Hists, h)
+		}
+		c, _, _ := mainCase(w, rng, in, ntimes, "slow_datasource")
+		w.Add(c)
+	}
+	// late-arriving parent versions: the first k versions annotated alone, then all together with
+	// the first k objects already annotated
+	for i, made := 0, 0; made < n/8 && i < 5*n; i++ {
+		in := annot.Generate(rng, annot.GenOpts{MaxChildren: 4, MaxVersions: 8, Clean: true})
+		if len(in.Parents) < 2 || in.HasFilter {
+			continue
+		}
+		k := 1 + rng.Intn(len(in.Parents)-1)
+		second, o := in.PrefixStep(k)
+		if second == nil {
+			continue
+		}
+		c, _, _ := stepCase(w, rng, second, o, ntimes, "late_parent", map[string]interface{}{
+			"sequence": fmt.Sprintf("step 1: parent versions 1..%d annotated alone; step 2 (the input shown): all versions annotated together, versions 1..%d being the same, already annotated objects", k, k)})
+		w.Add(c)
+		made++
 	}
 	for i := 0; i < n; i++ {
 		g := annot.GenOpts{MaxChildren: 6, MaxVersions: 8, Clean: rng.Intn(2) == 0, Ties: rng.Intn(6) == 0}
